@@ -128,6 +128,23 @@ impl JwkStorage for JwkMemStore {
       );
     }
 
+    // Signing only uses the private component: a public component that does not belong to it would make every
+    // signature for this key id fail to verify under the key's own public JWK.
+    if let MemStoreKeyType::Ed25519 = key_type {
+      let public_key = expand_secret_jwk(&jwk)?.public_key();
+      let x: Vec<u8> = jwk
+        .try_okp_params()
+        .ok()
+        .and_then(|params| identity_verification::jose::jwu::decode_b64(params.x.as_str()).ok())
+        .unwrap_or_default();
+      if x.as_slice() != public_key.as_ref() {
+        return Err(
+          KeyStorageError::new(KeyStorageErrorKind::Unspecified)
+            .with_custom_message("the public key component of the Jwk does not belong to its private key component"),
+        );
+      }
+    }
+
     let key_id: KeyId = random_key_id();
     #[cfg(identity_rs_verif)]
     let key_id: KeyId = crate::verif_hooks::next_key_id().map(KeyId::new).unwrap_or(key_id);
